@@ -23,6 +23,12 @@ func (t *Tree) FillHash(
 	}
 	token := t.Token
 
+	if token.Kind == KindRef {
+		// a reference's payload is the hash of the value it stands for
+		t.Hash = token.Value.([]byte)
+		return
+	}
+
 	state := newState()
 	if _, err = state.Write([]byte{byte(token.Kind)}); err != nil {
 		return
